@@ -462,6 +462,22 @@ func (f *Flow) evalStruct(t *Term, env Env, fl *evalFlags) ISet {
 				}
 			}
 		}
+		// a field of an unexported package struct: the values ever stored into that
+		// field anywhere in the package (roinit.go fieldValueSet)
+		switch ld := t.V.(type) {
+		case *ssa.UnOp:
+			if fa, ok := ld.X.(*ssa.FieldAddr); ok && ld.Op == token.MUL {
+				if pt, ok := fa.X.Type().Underlying().(*types.Pointer); ok {
+					if s := f.w.fieldValueSet(pt.Elem(), fa.Field); s != nil {
+						return s
+					}
+				}
+			}
+		case *ssa.Field:
+			if s := f.w.fieldValueSet(ld.X.Type(), ld.Field); s != nil {
+				return s
+			}
+		}
 		return f.top(t.T)
 	case TPure:
 		top := f.top(t.T)
@@ -880,11 +896,23 @@ func (f *Flow) refine(env Env, cond *Term, truth bool) (Env, bool) {
 		return out, true
 	case TPure:
 		out := env.clone()
+		want := single(0)
 		if truth {
-			out[cond.key] = single(1)
-		} else {
-			out[cond.key] = single(0)
+			want = single(1)
 		}
+		if cond.Name == "ctab" {
+			// `if table[i]` on a constant table of booleans: the outcome is a fact about
+			// the index (the entries holding that value), as for `table[i] == c`
+			if cur, _ := f.Eval(cond, env); cur != nil && cur.Intersect(want).Empty() {
+				return env, false
+			}
+			f.assign(out, cond, want)
+			if ix, has := out[cond.Args[0].key]; has && ix.Empty() {
+				return env, false
+			}
+			return out, true
+		}
+		out[cond.key] = want
 		return out, true
 	case TBin:
 		op := cond.Op
